@@ -9,7 +9,9 @@ mcCallsS ==
   {[op |-> "push", sid |-> 1, pid |-> 2, h |-> "req_get_b"], [op |-> "push", sid |-> 1, pid |-> 4, h |-> "req_cookies"],
    [op |-> "push", sid |-> 1, pid |-> 3, h |-> "req_get_b"], [op |-> "push", sid |-> 2, pid |-> 4, h |-> "req_get_b"],
    CHdr(2, "resp404", FALSE), CHdr(1, "resp404", TRUE), CHdr(2, "info100", FALSE), CHdr(2, "trl", FALSE), CHdr(2, "trl", TRUE), CData(2, 5, FALSE), CData(2, 2, TRUE),
-   [op |-> "rst", sid |-> 2, code |-> 8], [op |-> "oout", sid |-> 1]}
+   [op |-> "rst", sid |-> 2, code |-> 8], [op |-> "oout", sid |-> 1],
+   \* priority arguments with the response headers of a stream this server promised itself (C23: only clients may)
+   [op |-> "hdr", sid |-> 2, h |-> "resp404", es |-> FALSE, pr |-> <<<<5>>, <<>>, <<>>>>]}
 mcAdvC == {}
 mcAdvS ==
   Singles({ASet(<<<<4, 3>>>>), ASet(<<<<4, 70000>>>>), ASet(<<<<2, 0>>>>), ASet(<<<<3, 1>>>>), ASet(<<<<3, 0>>>>),
